@@ -24,6 +24,7 @@
     counters are compared after every step.
 """
 import copy
+from decimal import Decimal, InvalidOperation
 import os
 import re
 import time as _time
@@ -70,7 +71,7 @@ A_QUICK, A_THOROUGH = (5, -1, 400), (7, 2, 3000)
 AU_QUICK, AU_THOROUGH = 1, 3  # BFS depth of the second pass with the non-ASCII order
 AM_THOROUGH = 5  # thorough: full BFS depth for the market-order subclass (quick: directed chains, see SPINES)
 # order quantities (q, q') of the profiles that do not use (QTY_A, QTY_B)
-PROFILE_QTY = {"tiny": (2e-05, 1e16)}
+PROFILE_QTY = {"tiny": (2e-05, 1e16), "frac": (0.75, 1.25)}
 FOREIGN_CLORD = "somebody-else--1"
 HAND_ORDER_ID = "X77"  # OrderID of the hand-made acknowledgement (profile "resession")
 B_QUICK, B_THOROUGH = 5, 6
@@ -627,6 +628,36 @@ def _num(d, tag):
         return None
 
 
+def _excess(d, cumv, lvv, oqv):
+    """CumQty + LeavesQty - OrderQty, exact when the three are plain decimal literals."""
+    try:
+        return Decimal(d["14"]) + Decimal(d["151"]) - (Decimal(d["38"]) if "38" in d else Decimal(repr(oqv)))
+    except (InvalidOperation, KeyError):
+        x = cumv + lvv - oqv
+        return Decimal(repr(x)) if x > 1e-9 else Decimal(0)
+
+
+BOUNDARY_DELTAS = [-0.0001, -0.000001, 0, 0.0004, 0.00049, 0.0005, 0.001]
+
+
+def probe_boundary(acc, names, path, ft, o, tr, seen_exec):
+    """Quantities with 4-6 decimals around CumQty + LeavesQty = OrderQty (E = order quantity, h = E/2):
+    (h+d, h) with OrdStatus 1 and (h, h+d) with OrdStatus 0 for every ExecType, d from just below to 0.001 above."""
+    e = tr.qty
+    h = e / 2
+    for d in BOUNDARY_DELTAS:
+        x = round(h + d, 6)
+        for cum, lv, st in ((x, h, "1"), (h, x, "0")):
+            for et in EXEC_TYPES:
+                last = None
+                if et == "F":
+                    last = round(cum - tr.cum, 6)
+                    if last <= 0:
+                        continue
+                judge_er_pair(acc, names, path, ft, o, tr, ["er", "cur", et, st, cum, lv, last, None, None, None],
+                              seen_exec)
+
+
 def judge_er_pair(acc, names, path, ft, o, tr, op, seen_exec):
     """Fabricate the report of `op` twice in a row on (ft, o), judge both, process the
     first on a copy of the order.  Returns (processed copy, OrderID) or None."""
@@ -653,9 +684,11 @@ def judge_er_pair(acc, names, path, ft, o, tr, op, seen_exec):
     if oqv is None and "38" not in d1:
         oqv = float(tr.qty if oq is None else oq)
     if None not in (cumv, lvv, oqv) and all(map(isfinite, (cumv, lvv, oqv))):
-        if cumv + lvv > oqv + 1e-9:
-            acc.v(f"qty_sum|cum={given(cum)},leaves={given(lv)},order_qty={given(oq)}", CL_SUM,
-                  dict(info, observed=[cumv, lvv, oqv]), rep)
+        excess = _excess(d1, cumv, lvv, oqv)  # exact on the decimal strings of the message
+        if excess > 0:
+            size = ",excess_below_0.001" if excess < Decimal("0.001") else ""
+            acc.v(f"qty_sum|cum={given(cum)},leaves={given(lv)},order_qty={given(oq)}{size}", CL_SUM,
+                  dict(info, observed=[d1.get("14"), d1.get("151"), d1.get("38", oqv)], excess=str(excess)), rep)
     if d1.get("39") in FINISHED and lvv is not None and lvv != 0:
         acc.v(f"leaves_zero_finished|leaves={given(lv)}", CL_FIN, dict(info, observed_leaves=lvv), rep)
     # -- ExecID / OrderID
@@ -883,6 +916,7 @@ def probe_arguments(acc, names, path):
         for et in EXEC_TYPES:
             for st in (ORD_STATUSES if kind == "foreign" else ["0", "1", "2", "4"]):
                 judge_er_pair(acc, names, path, ft, o, tr, ["er", kind, et, st] + D + [{"clord": cid}], seen_exec)
+    probe_boundary(acc, names, path, ft, o, tr, seen_exec)
     for et in EXEC_TYPES:
         judge_er_pair(acc, names, path, ft, o, tr, ["er", "cur", et, "Z"] + D, seen_exec)
         for st in ORD_STATUSES:
@@ -972,7 +1006,7 @@ def special_chains(names):
     """Tiny / huge quantities and prices, and a plain MARKET order created without a price: one acknowledged,
     partly filled and replaced chain each, every report of the chain judged like a grid point."""
     out = []
-    for prof, price in (("tiny", 5e-05), ("plain_market", nan)):
+    for prof, price in (("tiny", 5e-05), ("plain_market", nan), ("frac", names[3])):
         nm = tuple(names[:3]) + (price, names[4], prof)
         qa, qb = PROFILE_QTY.get(prof, (QTY_A, QTY_B))
         h = qa / 2
@@ -981,7 +1015,7 @@ def special_chains(names):
                  ["er", "cur", "0", "0", None, qa, None, None, None, None],
                  ["er", "cur", "F", "1", h, qa - h, h, None, None, None],
                  ["rep", None, qb],
-                 ["er", "cur", "5", "1", None, qb - h, None, None, qb, None]]
+                 ["er", "cur", "5", "1", None, qb / 2, None, None, qb, None]]  # (qb - h is not representable for 1e16)
         out.append((nm, chain))
     return out
 
@@ -996,7 +1030,9 @@ def run_special(names):
                     ft, o, tr = build(nm, path)
                 except Exception:
                     break
-                judge_er_pair(acc, nm, list(path), ft, o, tr, op, set(tr.exec_ids))
+                seen_exec = set(tr.exec_ids)
+                judge_er_pair(acc, nm, list(path), ft, o, tr, op, seen_exec)
+                probe_boundary(acc, nm, list(path), ft, o, tr, seen_exec)
             path = path + [op]
             try:
                 build(nm, path)
@@ -1150,6 +1186,7 @@ def run(ctx):
         "ClOrdID arguments are restricted to the ids the order currently holds (a foreign id is rejected by the order object; pinned by test_exec_report_clord_mismatch)",
         "order is a LIMIT order with finite price and a string account; quantities 10 and 12; a second, shallower BFS uses an order with non-ASCII ticker / account",
         "further directed passes (full grid in every state): an order subclass whose set_price_qty() hook leaves Price out (market order; quick: acknowledged order + cancel / replace request, thorough: full BFS), and orders the helper instance first sees through fix_cxl_request / fix_rep_request (second helper instance after an acknowledgement through the first; acknowledgement by hand-made reports)",
+        "boundary probe in every state and along a directed chain with fractional order quantity 0.75 / 1.25: (E/2+d, E/2) and (E/2, E/2+d) for d in -0.0001 .. +0.001 x ExecType; the sum clause is judged exactly on the decimal strings of the message",
         "probes outside the main grid in every state (numeric arguments defaulted, ExecType x OrdStatus): ClOrdID of somebody else / the root / the id retired by a REPLACED report, OrdStatus CREATED (Z), avg_price=nan; cancel rejects also with CREATED; directed chains for quantity 2e-05 / 1e16 with price 5e-05 and for a plain MARKET order with price nan; requests built by order.cancel_req() / replace_req()",
         "chains are extended with exchange-consistent reports only (all other accepted reports are judged and processed one step deep)",
         "quick tier: FIXSchema.validate (0.6 ms per call) runs on every message showing a new tag set or a new (tag, value) pair; the independent dictionary reading runs on every message; thorough tier: FIXSchema.validate on every distinct content",
